@@ -365,7 +365,6 @@ func (b *BitSet) Trim() {
 			}
 			return
 		}
-		i--
 	}
 	b.data = nil
 }
